@@ -393,6 +393,13 @@ def check_usage_history(D: S.Dict, rec: Recorder, seed: int, n: int):
                 if op == "new-append":
                     g = Avp.new(code, vendor)
                     g.value.append(kid)
+                    # the documented idiom ("the value can be operated as a regular list"): what was appended
+                    # belongs to the value and therefore to the encoding
+                    want_g = S.ref_encode(D, {"code": code, "vendor": vendor, "m": None, "p": None, "v": _vs("Grouped", [child])})
+                    if g.as_bytes() != want_g:
+                        rec.violation("C01/usage-history/in-place-append-not-encoded", {"entry": [code, vendor]},
+                                      f"Avp.new({code}, {vendor}).value.append(child): value has {len(g.value)} member(s), "
+                                      f"encoding is {g.as_bytes().hex()[:60]} ({g.length} bytes), expected {len(want_g)} bytes")
                 elif op == "new-extend":
                     g = Avp.new(code, vendor)
                     g.value += [kid, kid]
